@@ -100,6 +100,20 @@ fn run_op(op: Op, fault: Fault) -> (Result<String, String>, u64, u64, Option<Sto
     };
     let d1 = net.seg.borrow().datagrams;
     let s1 = net.seg.borrow().serviced[1];
+    // for the transitions the value includes what was programmed into the devices (sync managers
+    // and FMMUs), so that "succeeded, but configured something else" is visible
+    let r = match (op, r) {
+        (Op::IntoSafeOp | Op::IntoOp, Ok(Ok(s))) => {
+            let seg = net.seg.borrow();
+            let mut cfg: Vec<u8> = Vec::new();
+            for d in seg.devices.iter() {
+                cfg.extend_from_slice(&d.mem[0x0600..0x0700]);
+                cfg.extend_from_slice(&d.mem[0x0800..0x0880]);
+            }
+            Ok(Ok(format!("{} cfg={:016x}", s, crate::core::fnv(&cfg))))
+        }
+        (_, r) => r,
+    };
     match r {
         Ok(Ok(s)) => (Ok(s), d1 - d0, s1 - s0, None),
         Ok(Err(e)) => (Err(format!("{:?}", e)), d1 - d0, s1 - s0, None),
@@ -172,7 +186,7 @@ fn builders(viol: &mut Vec<(String, String)>, outcomes: &mut BTreeMap<String, u6
 
 pub fn c11(tier: &Tier) -> Result<i32, String> {
     let mut rep = Report::new("C11", "fault_enumeration", tier);
-    rep.rule = "(A) the four data-returning command builder methods x expected count 0..=3 x serviced count 0..=3 (absent address / wire rewriting the counter); (B) every listed entry point (register_read, register_write, status, eeprom_read_raw, eeprom_read, sdo_read expedited and normal, sdo_write, into_safe_op, into_op) with the device dropping out after the j-th datagram addressed to it, for every j up to the number of datagrams the healthy operation uses; (C) the working counter of the k-th datagram of each operation rewritten to 0, 2 and 3 for every k; non-trivial = fault position inside the operation".into();
+    rep.rule = "(A) the four data-returning command builder methods x expected count 0..=3 x serviced count 0..=3 (absent address / wire rewriting the counter); (B) every listed entry point (register_read, register_write, status, eeprom_read_raw, eeprom_read, sdo_read expedited and normal, sdo_write, into_safe_op, into_op) with the device dropping out after the j-th datagram addressed to it, for every j up to the number of datagrams the healthy operation uses; (C) the working counter of the k-th datagram of each operation rewritten to 0, 2 and 3 for every k; where an unanswered datagram is tolerated the result (for the transitions: including the sync manager / FMMU registers programmed) must equal the healthy one; non-trivial = fault position inside the operation".into();
     rep.assumptions = vec![
         "WorkingCounter{expected, received} is required where a single datagram carries the data or acknowledgement handed to the caller (builder methods; the last datagram of register/EEPROM/SDO reads); for multi-step operations whose device vanishes in the middle the requirement is 'never Ok' (DESIGN.md appendix E)".into(),
         "ignore_wkc() callers and WrappedWrite::send are exempt as the property states; a rewritten counter on such a datagram must simply not crash anything".into(),
@@ -202,6 +216,7 @@ pub fn c11(tier: &Tier) -> Result<i32, String> {
                         viol.push((format!("healthy-operation-failed op={:?}", op), format!("{:?} on a healthy network: {:?}", op, healthy)));
                         return (n, nt, viol, outcomes, String::new());
                     }
+                    let healthy_value: Option<String> = healthy.clone().ok();
                     let sample = format!("{:?}: healthy uses {} datagrams, {} serviced by the device; healthy result {:?}", op, dgrams, serviced, healthy);
                     // (B) vanish after j serviced datagrams
                     let step = if serviced > 400 && !thorough { 3 } else { 1 };
@@ -249,6 +264,13 @@ pub fn c11(tier: &Tier) -> Result<i32, String> {
                                 Err(e) if is_final && !e.contains(&format!("WorkingCounter {{ expected: 1, received: {} }}", v)) => viol.push((
                                     format!("wrong-error-kind op={:?}", op),
                                     format!("{:?}: result datagram came back with counter {}, error is {}", op, v, e),
+                                )),
+                                // an unanswered datagram that is tolerated (status polls, reads whose
+                                // counter is documented as ignored) must not change what the operation
+                                // returns or configures
+                                Ok(val) if v == 0 && Some(val) != healthy_value.as_ref() => viol.push((
+                                    format!("unanswered-datagram-changed-the-outcome op={:?}", op),
+                                    format!("{:?} returned Ok({}) with datagram {} unanswered (counter 0); the healthy operation returns Ok({})", op, val, k, healthy_value.clone().unwrap_or_default()),
                                 )),
                                 Ok(_) => *outcomes.entry(format!("{:?} rewrite tolerated", op)).or_insert(0) += 1,
                                 Err(_) => *outcomes.entry(format!("{:?} rewrite -> error", op)).or_insert(0) += 1,
